@@ -57,13 +57,9 @@ def _nodes(db, chk, m):
     TD = ("param", "TD")
     st = db.mod("hta.common.trace_symbol_table")
 
-    def hook(I, name, pos, kw, node):
-        if name.endswith("get_operator_or_cuda_runtime_query"):
-            return "(cat == 1 or cat == 2 or cat == 3)"
-        return NotImplemented
-
-    I = Interp(db, call_hook=hook)
-    runs = [r for r in I.explore(ref, lambda I: {"self": Obj("self", cls=(m, "CPGraph"), attrs={"trace_df": Frame(TD), "symbol_table": Obj("symtab", attrs={"sym_index": T.P("SYMIDX")}),
+    # (the category query of the symbol table is evaluated too: which host categories get nodes is part of the rule)
+    I = Interp(db)
+    runs = [r for r in I.explore(ref, lambda I: {"self": Obj("self", cls=(m, "CPGraph"), attrs={"trace_df": Frame(TD), "symbol_table": Obj("symtab", cls=(st, "TraceSymbolTable"), attrs={"sym_index": T.P("SYMIDX")}),
                                                                                               "BLOCKING_SYNC_CALLS": ["cudaDeviceSynchronize"]})}) if r.raised is None]
     chk.analysed_add("functions", ref)
     if len(runs) != 1:
@@ -104,6 +100,20 @@ def _nodes(db, chk, m):
     dev = T.and_(T.cmp("!=", T.col(TD, "stream"), T.C(-1)), T.cmp(">=", T.col(TD, "index_correlation"), T.C(0)))
     okrows = rows[0] == "or" and dev in rows[1]
     chk.ob(rule, "events represented: host operators / runtime calls, or device activities with a correlation link", okrows, where, found=T.show(rows)[:240], accepted="(operator or runtime categories) or (stream != -1 and index_correlation >= 0)")
+    # the host side: the categories that get nodes are operators and BOTH launch APIs (runtime and driver) - a kernel's launch-delay edge needs the node of its launch call
+    if okrows:
+        cats, other = set(), []
+        for d_ in rows[1]:
+            if d_ == dev:
+                continue
+            calls_ = T.find(d_, lambda s_: s_[0] == "call" and str(s_[1]).endswith((".get", "sym_index.get")) and len(s_) >= 3)
+            if d_[0] == "cmp" and d_[1] == "==" and len(calls_) == 1 and T.col(TD, "cat") in T.find(d_, lambda s_: s_[0] == "col") and T.is_const(calls_[0][2]):
+                cats.add(calls_[0][2][1])
+            else:
+                other.append(T.show(d_)[:100])
+        need = {"cpu_op", "cuda_runtime", "cuda_driver"}
+        chk.ob(rule, "host events represented: categories cpu_op, cuda_runtime and cuda_driver", (need <= cats) if not other else None, where, found=sorted(cats) + other, accepted=sorted(need),
+               why="without the driver category a cuLaunchKernel call (Triton / torch.compile kernels) has no node: its kernel's launch-delay edge cannot be built and the call's span is missing from the graph")
     # CPNode construction agreement
     cpn = H.dataclass_fields(m.cls("CPNode"))
     nl = r.env["self"].attrs.get("node_list")
